@@ -184,12 +184,15 @@ def run(ctx):
     else:
         pools = list(range(POOLS))
         mpools = PREFIX_FREE
-        limit, nrand, full = "0", "3000", "1"
+        limit, nrand, full = "0", "1500", "1"
     for p in pools:
         ps = str(p)
         # pebble: everything, fully strict
+        # the complete read product on every distinct content is the expensive part: in the
+        # thorough tier pools 0..3 get it, the others get sampled reads (3 per write step)
+        pf = full if (ctx.quick() or p < 4) else "0"
         drive_and_validate(ctx, zr, "pebble", "pebble-graph-p" + ps,
-                           ["-dot", g_full, "-seed", seed, "-pool", ps, "-limit", limit, "-full", full],
+                           ["-dot", g_full, "-seed", seed, "-pool", ps, "-limit", limit, "-full", pf, "-reads", "3"],
                            True, stats, samples)
         drive_and_validate(ctx, zr, "pebble", "pebble-rand-p" + ps,
                            ["-random", nrand, "-len", "80", "-seed", seed, "-pool", ps, "-defwb"],
